@@ -1815,6 +1815,7 @@ func c20Compare(c *Ctx, cases []c20ShellCase) {
 		case r.in.Panic != "":
 			c.Fail(cs.witness, fmt.Sprintf("interpreter panics (%s); bash prints %q", r.in.Panic, r.sh.Stdout))
 		case r.in.Stdout != r.sh.Stdout:
+			c.Hist["shell-mismatch:"+cs.ctx]++
 			c.Fail(cs.witness, fmt.Sprintf("interp prints %q, bash prints %q", r.in.Stdout, r.sh.Stdout))
 		}
 	}
